@@ -39,6 +39,12 @@ def c05(tier, seed, replay_path=None):
         runs.append(res)
         gen_counts[tag] = {"behaviours": n_, "constants": consts, "sampled": bool(sample and n_ == sample)}
         aggs.append(fc.replay(binary, path, seed))
+        # the same behaviours once more with ROW-level faults: the armed write is executed by the real repository while an
+        # SQLite trigger fails one of its rows; a repository write is one atomic step of ChainSteps.tla, so nothing may differ
+        a2 = fc.replay(binary, path, seed, extra_env={"VERIF_ROWFAULT": "1"})
+        for m in a2["mismatches"]:
+            m["rowfault"] = True
+        aggs.append(a2)
     agg = merge(aggs)
     st = agg["stats"]
     if st.get("fault:kill", 0) == 0 or st.get("fault:err", 0) == 0 or st.get("reorg-steps", 0) == 0 or st.get("res:restart", 0) == 0:
